@@ -77,6 +77,9 @@ ASSUMPTIONS = ["one physical exit per device; balls only enter a device when a s
                "session-3 stream: environment events never fall on exactly the same loop instant as an unrelated MPF timer (two "
                "directed witnesses show what happens when they do)",
                "two sources feeding one target can double-fire (known finding D16)",
+               "no ball rolls from the playfield into a device in the window between a source's readiness check for an eject "
+               "towards that device and the source's coil pulse (the source waits for its own count lock in between; the entry "
+               "is not yet counted when it fires - directed witness fired-into-full-device:entry-between-readiness-check-and-pulse)",
                "ambiguous physical histories are not generated: a ball falling back later than eject_timeout, a ball arriving "
                "later than ball_missing_timeout, a ball entering a device while that device's own ejected ball is under way, a "
                "playfield switch hit by another ball while a ball ejected to the playfield is falling back"]
@@ -543,6 +546,12 @@ WITNESSES = [
     ("count-low:entrance-ball-rested-shorter-than-full-timeout", None),
 ]
 WITNESSES[-1] = (WITNESSES[-1][0], entrance_race_case(0))
+# found by the thorough stream (seed 4): the trough has passed its readiness check for the plunger (state "ejecting") and waits
+# in BallCountHandler.start_eject() for its own count lock (a ball has just drained into it); a ball rolls from the playfield
+# into the plunger in that window and is not yet counted there when the trough fires (the code's TODO "block one spot in
+# target device")
+WITNESSES.append(("fired-into-full-device:entry-between-readiness-check-and-pulse",
+                  {"env_offset": True, "ops": [["add_ball_pc"], ["wait", 8], ["add_ball_pc"], ["wait", 8], ["plunge"], ["add_ball"], ["wait", 24], ["pf_hit"], ["plunge"], ["wait", 17], ["pf_hit"], ["drain"], ["release_lock"], ["spurious_confirm"], ["spurious_confirm"], ["pf_to_plunger", True], ["wait", 40]], "outcomes": {"confirm": ["ontime", "late", "ontime", "never", "late", "ontime", "late", "never"], "lock": ["ok", "ok", "ok", "ok", "ok", "ok"], "plunge": ["ok", "ok", "ok", "ok", "ok", "fallback", "ok", "ok"], "plunger": [], "trough": ["ok", "ok", "ok", "ok", "ok", "ok", "ok", "ok"]}, "p": {"balls": 3, "confirm": "switch", "eject_to": 3000, "idle_to": 2000, "missing_to": 4000, "plunger": "mech", "slots": 4, "topo": "std", "tries_lock": 2, "tries_plunger": 3, "tries_trough": 3}, "timing": {"fallback": 0.125, "late": 0.5, "leave": 0.125, "pf_switch": False, "strict_capture": True, "transit": 0.5, "ambiguous": True}}))
 WITNESS_SIGS = tuple(w[0] for w in WITNESSES)
 
 
